@@ -592,7 +592,17 @@ func (c *Ctx) ListRuleApproves(prop string) {
 	rets := an.Returns(fn)
 	bad := false
 	for _, ret := range rets {
-		if !an.IsConstInt(an.Result(ret, 0), s.APPROVED) {
+		// the constant itself, or the result of a package helper every return of which is that constant
+		viaHelper := false
+		if rvs, ok := HelperResults(an.Result(ret, 0)); ok && len(rvs) > 0 {
+			viaHelper = true
+			for _, rv := range rvs {
+				if !an.IsConstInt(rv.Val, s.APPROVED) {
+					viaHelper = false
+				}
+			}
+		}
+		if !an.IsConstInt(an.Result(ret, 0), s.APPROVED) && !viaHelper {
 			bad = true
 			c.R.Fail(rule, Fn(fn), c.Pos(ret), "the listing rule can answer something other than APPROVED: "+an.Term(an.Result(ret, 0))+"; the lister silently leaves out every account for which it does (and it is shown all paths of the request for each account)", "OnListAccounts returns APPROVED on every path", nil)
 		}
